@@ -162,7 +162,7 @@ def decl_name(block):
 
 # what a subset variant is built around: declarations that give the library exactly one (or two)
 # kinds of releasable memory
-SUBSET_RECIPES = [("arrNew",), ("arrNew", "arrNewPat"), ("strOwned",), ("vecRet",), ("Item",), ("Holder",),
+SUBSET_RECIPES = [("arrNew",), ("arrNew", "arrNewPat"), ("arrNew", "arrFillPtr"), ("arrNew", "arrGrabRef", "arrFillPtr"), ("strOwned",), ("vecRet",), ("Item",), ("Holder",),
                   ("arrNewAlloc",), ("vecRetD",), ("vecAlloc",), ("Box", "makeBox"), ("strVal",), ("deep",),
                   ("Item", "makeItem", "copyItem"), ("vecIota", "vecAlloc", "vecRet"),
                   ("Pt", "ptSum", "ptOut"), ("Arr", "arrTotal"), ("Bag",), ("Rec", "recSum"), ("Pt", "Arr", "arrTotal", "ptScale")]
